@@ -134,6 +134,17 @@ def gen_jobs(ctx):
     from checks import c20
     for c in c20.gen_overlaps(ctx):
         jobs.append(("shim.all_intersections", [enc_arr(c["c1"]), enc_arr(c["c2"])], "isect"))
+    # ... and, directed, the four end-point configurations of a partial overlap (same / opposite direction, at the start / at the end
+    # of both curves): curve2 = curve1 restricted to [1/2, 3/2], [-1/2, 1/2], [1/2, -1/2], [3/2, 1/2], for three parents
+    import oracle_q as oq
+    for parent in ([[F(0), F(4), F(8)], [F(0), F(8), F(0)]],
+                   [[F(0), F(2), F(6), F(8)], [F(0), F(8), F(-4), F(4)]],
+                   [[F(0), F(2), F(4), F(6), F(8)], [F(0), F(8), F(0), F(8), F(0)]]):
+        for a, b in ((F(1, 2), F(3, 2)), (F(-1, 2), F(1, 2)), (F(1, 2), F(-1, 2)), (F(3, 2), F(1, 2))):
+            piece = [oq.specialize(r, a, b) for r in parent]
+            if all(F(float(v)) == v for r in piece for v in r):
+                jobs.append(("shim.all_intersections", [enc_arr(parent), enc_arr(piece)], "isect"))
+                jobs.append(("shim.all_intersections", [enc_arr(piece), enc_arr(parent)], "isect"))
     return jobs
 
 
